@@ -427,8 +427,33 @@ def _run_writer(ctx, q, blocks, number_columns, comments, precision=None, assume
             for x in items:
                 out.append((is_pyconst(x), pyval(x) if is_pyconst(x) else to_term(x), e.node))
         else:
-            out.append((is_pyconst(v), pyval(v) if is_pyconst(v) else to_term(v), e.node))
+            out.extend(_pieces_of(v, e.node))
     return out
+
+
+def _pieces_of(v, node):
+    """the pieces of one write: a text collected in a list and joined (`sep.join(pieces)`) is the sequence of its pieces, a piece that
+    comes from a comprehension / generator over the rows is the line of a generic row"""
+    if is_pyconst(v):
+        return [(True, pyval(v), node)]
+    t = to_term(v)
+    if t.op == "call" and t.args[0] == "str.join" and len(t.args) == 3 and t.args[1].op == "const" and isinstance(tm.cval(t.args[1]), str) \
+            and t.args[2].op == "vec":
+        sep, out = tm.cval(t.args[1]), []
+        for k_, item in enumerate(t.args[2].args):
+            if k_ and sep:
+                out.append((True, sep, node))
+            if item.op == "const" and isinstance(tm.cval(item), str):
+                out.append((True, tm.cval(item), node))
+            elif item.op == "call" and item.args[0] in ("extended", "listcomp") and len(item.args) >= 2:
+                inner = item.args[1]
+                if inner.op == "call" and inner.args[0] == "listcomp" and len(inner.args) >= 2:
+                    inner = inner.args[1]
+                out.append((False, inner, node))
+            else:
+                out.append((False, item, node))
+        return out
+    return [(False, t, node)]
 
 
 def writer_text(ctx, q, m, fn):
